@@ -5,15 +5,15 @@
 //     (partition_sequence = index; ALL L events are stored, the ones at/after the watermark are the
 //     unconfirmed ones a reader must never see); next_batch(limit) returns None for limit 0 or at the
 //     end, else one single-event commit (the smallest batch the real iterator may return)
-//   * ReplySender::send records the reply; tokio::spawn runs the future to completion (mock futures are
-//     always ready)
+//   * ReplySender::send records the reply; the handler is taken as two verbatim statement ranges (before the
+//     tokio::spawn and inside the spawned block) with `.await` stripped, because the mock iterator is synchronous
+//     (the whole async handler under kani::block_on did not terminate)
 // Symbolic: watermark, start, end (None / value), count, and for the stream handler which events belong
 // to the stream (their stream_version = rank inside the stream).
-use std::future::Future;
 use std::marker::PhantomData;
-use std::sync::Arc;
 
 const L: usize = @L@;
+const RL: usize = 4; // reply capacity >= every modelled log length
 
 #[derive(Clone, Copy, Debug)]
 pub struct EventRecord {
@@ -57,7 +57,8 @@ impl std::fmt::Display for ReadErr {
 }
 
 static mut IN_STREAM: [bool; L] = [true; L]; // which log events belong to the stream being read
-static mut P_REPLY: Option<(usize, [u64; L], bool)> = None; // (n events, their partition sequences, has_more)
+
+static mut P_REPLY: Option<(usize, [u64; RL], bool)> = None; // (n events, their partition sequences, has_more)
 static mut REPLIED_ERR: bool = false;
 
 pub struct ReplySender<T>(PhantomData<T>);
@@ -65,9 +66,9 @@ pub trait Recordable {
     fn record(self);
 }
 fn record_events(events: &Vec<EventRecord>, has_more: bool) {
-    let mut seqs = [0u64; L];
+    let mut seqs = [0u64; RL];
     let mut i = 0;
-    while i < events.len() && i < L {
+    while i < events.len() && i < RL {
         seqs[i] = events[i].partition_sequence;
         i += 1;
     }
@@ -97,102 +98,100 @@ impl<T: Recordable> ReplySender<T> {
     }
 }
 
-mod tokio {
-    pub fn spawn<F: std::future::Future<Output = ()>>(f: F) {
-        kani::block_on(f);
-    }
+pub trait BatchIter {
+    type Commit: IntoIterator<Item = EventRecord>;
+    fn next_batch(&mut self, limit: usize) -> Result<Option<[Self::Commit; 1]>, ReadErr>;
 }
 
-#[derive(Clone)]
-pub struct Database;
-pub struct MockIter {
-    pos: usize,       // next log index to look at
-    stream: bool,     // filter by IN_STREAM
-}
-impl Database {
-    pub async fn read_partition(&self, _p: PartitionId, start: u64, _d: IterDirection) -> Result<MockIter, ReadErr> {
-        Ok(MockIter { pos: if start as usize > L { L } else { start as usize }, stream: false })
-    }
-    pub async fn read_stream(&self, _p: PartitionId, _s: StreamId, start_version: u64, _d: IterDirection) -> Result<MockIter, ReadErr> {
-        // position of the first stream event whose stream_version >= start_version
-        let mut idx = 0;
-        let mut ver = 0u64;
-        unsafe {
-            while idx < L {
-                if IN_STREAM[idx] {
-                    if ver >= start_version { break; }
-                    ver += 1;
-                }
-                idx += 1;
-            }
+fn rank(k: usize) -> u64 {
+    let mut ver = 0u64;
+    let mut j = 0;
+    unsafe {
+        while j < k && j < L {
+            if IN_STREAM[j] { ver += 1; }
+            j += 1;
         }
-        Ok(MockIter { pos: idx, stream: true })
     }
+    ver
 }
-impl MockIter {
-    pub async fn next_batch(&mut self, limit: usize) -> Result<Option<[[EventRecord; 1]; 1]>, ReadErr> {
-        if limit == 0 {
-            return Ok(None);
-        }
+
+/// variant S: single-event commits as one-element arrays
+pub struct IterS { pos: usize, stream: bool }
+impl BatchIter for IterS {
+    type Commit = [EventRecord; 1];
+    fn next_batch(&mut self, limit: usize) -> Result<Option<[[EventRecord; 1]; 1]>, ReadErr> {
         unsafe {
-            while self.pos < L && self.stream && !IN_STREAM[self.pos] {
-                self.pos += 1;
-            }
-            if self.pos >= L {
-                return Ok(None);
-            }
+            while self.pos < L && self.stream && !IN_STREAM[self.pos] { self.pos += 1; }
+            if self.pos >= L { return Ok(None); }
             let i = self.pos;
+            // (the position advances also when limit == 0 returns None: both handlers stop at the first None and never
+            // use the iterator again, so this is unobservable, and it keeps `pos` concrete for the symbolic executor)
             self.pos += 1;
-            let mut ver = 0u64;
-            let mut j = 0;
-            while j < i {
-                if IN_STREAM[j] { ver += 1; }
-                j += 1;
-            }
-            let ev = EventRecord { partition_sequence: i as u64, stream_version: ver, confirmation_count: 0 };
-            // one batch = one commit = one event, as arrays (no heap, no drop glue)
-            Ok(Some([[ev]]))
+            if limit == 0 { return Ok(None); }
+            Ok(Some([[EventRecord { partition_sequence: i as u64, stream_version: rank(i), confirmation_count: 0 }]]))
         }
     }
 }
 
-pub struct AtomicWatermark(u64);
-impl AtomicWatermark {
-    pub fn get(&self) -> u64 {
-        self.0
+/// variant T: every transaction has exactly two events (a log of L2/2 pairs), commits as two-element arrays
+pub const L2: usize = 4;
+pub struct IterT { pos: usize }
+impl BatchIter for IterT {
+    type Commit = [EventRecord; 2];
+    fn next_batch(&mut self, limit: usize) -> Result<Option<[[EventRecord; 2]; 1]>, ReadErr> {
+        if self.pos + 1 >= L2 { return Ok(None); }
+        let i = self.pos;
+        self.pos += 2; // (also on the limit == 0 path, see IterS)
+        if limit == 0 { return Ok(None); }
+        let e0 = EventRecord { partition_sequence: i as u64, stream_version: i as u64, confirmation_count: 0 };
+        let e1 = EventRecord { partition_sequence: i as u64 + 1, stream_version: i as u64 + 1, confirmation_count: 0 };
+        Ok(Some([[e0, e1]]))
     }
 }
-pub struct WmMap(Option<Arc<AtomicWatermark>>);
-impl WmMap {
-    pub fn get(&self, _p: &PartitionId) -> Option<&Arc<AtomicWatermark>> {
-        self.0.as_ref()
+
+fn stream_start(start_version: u64) -> usize {
+    let mut idx = 0;
+    let mut ver = 0u64;
+    unsafe {
+        while idx < L {
+            if IN_STREAM[idx] {
+                if ver >= start_version { break; }
+                ver += 1;
+            }
+            idx += 1;
+        }
     }
-}
-pub struct ClusterActor {
-    database: Database,
-    watermarks: WmMap,
+    idx
 }
 
-impl ClusterActor {
-// ---- verbatim slices of crates/sierradb-cluster/src/read.rs are inserted here
-@SLICES@
+/// The gating logic of handle_partition_read_locally: two verbatim statement ranges of the handler (the part before
+/// `tokio::spawn` and the body of the spawned block from `let mut events` to the reply), `.await` stripped because the
+/// mock iterator is synchronous.
+fn partition_read_body<I: BatchIter>(mut iter: I, partition_id: PartitionId, watermark: u64, start_sequence: u64, end_sequence: Option<u64>, count: u64,
+                       reply_sender: ReplySender<Result<PartitionEvents, ClusterError>>) {
+@PART_A@
+@PART_B@
 }
 
-fn setup(wm: u64) -> ClusterActor {
+fn stream_read_body<I: BatchIter>(mut iter: I, partition_id: PartitionId, stream_id: StreamId, watermark: u64, start_version: u64, end_version: Option<u64>, count: u64,
+                    reply_sender: ReplySender<Result<StreamEvents, ClusterError>>) {
+@STREAM_B@
+}
+
+fn setup() {
     unsafe {
         P_REPLY = None;
         REPLIED_ERR = false;
     }
-    ClusterActor { database: Database, watermarks: WmMap(Some(Arc::new(AtomicWatermark(wm)))) }
 }
 
 fn check_reply(wm: u64, start_seq_lower_bound: u64) {
     unsafe {
         assert!(!REPLIED_ERR, "read failed");
         let Some((n, seqs, has_more)) = P_REPLY else { assert!(false, "no reply sent"); return; };
-        assert!(n <= L);
+        assert!(n <= RL);
         let mut i = 0;
-        while i < L {
+        while i < RL {
             if i < n {
                 assert!(seqs[i] < wm, "an event at or beyond the confirmed watermark (not quorum-confirmed) was returned");
                 assert!(seqs[i] >= start_seq_lower_bound, "an event before the requested start was returned");
@@ -203,23 +202,27 @@ fn check_reply(wm: u64, start_seq_lower_bound: u64) {
     }
 }
 
-#[kani::proof]
-#[kani::unwind(@UNW@)]
-fn c07_partition_read_confirmed_prefix_only() {
+/// start position and transaction shape are shape parameters (every combination is instantiated); watermark, end and
+/// count are symbolic. `pairs` = every transaction has two events (log of 4), else single-event transactions (log of 3).
+fn partition_case(pairs: bool, start: u64) {
+    let len = if pairs { L2 } else { L } as u64;
     let wm: u64 = kani::any();
-    kani::assume(wm <= L as u64);
-    let start: u64 = kani::any();
-    kani::assume(start <= L as u64 + 1);
-    let end: Option<u64> = if kani::any() { None } else { let e: u64 = kani::any(); kani::assume(e <= L as u64 + 1); Some(e) };
+    kani::assume(wm <= len);
+    let end: Option<u64> = if kani::any() { None } else { let e: u64 = kani::any(); kani::assume(e <= len + 1); Some(e) };
     let count: u64 = kani::any();
-    kani::assume(count <= L as u64 + 1);
-    let mut a = setup(wm);
-    a.handle_partition_read_locally(1, start, end, count, ReplySender(PhantomData));
+    kani::assume(count <= len + 1);
+    setup();
+    let pos = if start > len { len as usize } else { start as usize };
+    if pairs {
+        partition_read_body(IterT { pos }, 1, wm, start, end, count, ReplySender(PhantomData));
+    } else {
+        partition_read_body(IterS { pos, stream: false }, 1, wm, start, end, count, ReplySender(PhantomData));
+    }
     check_reply(wm, start);
     unsafe {
         let (n, seqs, has_more) = P_REPLY.unwrap();
         // completeness within the confirmed prefix: with an unbounded request everything confirmed from `start` is returned
-        if end.is_none() && count > L as u64 && start < wm {
+        if end.is_none() && count > len && start < wm {
             assert!(n as u64 == wm - start, "confirmed events missing from an unbounded partition scan");
             assert!(!has_more, "has_more set although the confirmed prefix was exhausted");
         }
@@ -229,48 +232,51 @@ fn c07_partition_read_confirmed_prefix_only() {
             let cut_by_end = matches!(end, Some(e) if last >= e);
             if !cut_by_end { assert!(last + 1 >= wm || (n as u64) < count, "has_more false although confirmed events remain"); }
         }
-        kani::cover!(n == 2 && wm == 2);
+        kani::cover!(n >= 1 || start >= len);
     }
-    std::mem::forget(a);
 }
 
-#[kani::proof]
-#[kani::unwind(@UNW@)]
-fn c07_stream_read_confirmed_prefix_only() {
+@PART_INSTANCES@
+
+/// which events belong to the stream and the start version are shape parameters; watermark, end and count symbolic
+fn stream_case(member: [bool; L], start_version: u64) {
     let wm: u64 = kani::any();
     kani::assume(wm <= L as u64);
-    unsafe {
-        let mut i = 0;
-        while i < L {
-            IN_STREAM[i] = kani::any();
-            i += 1;
-        }
-    }
-    let start_version: u64 = kani::any();
-    kani::assume(start_version <= L as u64);
+    unsafe { IN_STREAM = member; }
     let end: Option<u64> = if kani::any() { None } else { let e: u64 = kani::any(); kani::assume(e <= L as u64 + 1); Some(e) };
     let count: u64 = kani::any();
     kani::assume(count <= L as u64 + 1);
-    let mut a = setup(wm);
-    a.handle_stream_read_locally(1, StreamId(0), start_version, end, count, ReplySender(PhantomData));
+    setup();
+    stream_read_body(IterS { pos: stream_start(start_version), stream: true }, 1, StreamId(0), wm, start_version, end, count, ReplySender(PhantomData));
     check_reply(wm, 0);
     unsafe {
         let (n, seqs, _) = P_REPLY.unwrap();
         let mut i = 0;
         while i < L {
-            if i < n { assert!(IN_STREAM[seqs[i] as usize], "an event of another stream was returned"); }
+            if i < n { assert!((seqs[i] as usize) < L && IN_STREAM[seqs[i] as usize], "an event of another stream was returned"); }
             i += 1;
         }
-        kani::cover!(n >= 1 && wm >= 1);
+        // an unbounded scan from version 0 returns every confirmed event of the stream
+        if end.is_none() && count > L as u64 && start_version == 0 {
+            let mut want = 0usize;
+            let mut j = 0;
+            while j < L {
+                if IN_STREAM[j] && (j as u64) < wm { want += 1; }
+                j += 1;
+            }
+            assert!(n == want, "confirmed events of the stream missing from an unbounded stream scan");
+        }
+        kani::cover!(n >= 1 || !member[0]);
     }
-    std::mem::forget(a);
 }
+
+@STREAM_INSTANCES@
 
 #[kani::proof]
 #[kani::unwind(@UNW@)]
 fn c07_vacuity_witness() {
-    let mut a = setup(2);
-    a.handle_partition_read_locally(1, 0, None, 5, ReplySender(PhantomData));
+    setup();
+    partition_read_body(IterS { pos: 0, stream: false }, 1, 2, 0, None, 5, ReplySender(PhantomData));
     unsafe { kani::assume(matches!(P_REPLY, Some((n, _, _)) if n >= 1)); }
     assert!(false, "vacuity witness");
 }
